@@ -200,8 +200,9 @@ Step ==
             /\ cnt' = Inc(cnt, {"lines", "vectors"} \cup (IF same THEN {} ELSE {"setup_mismatch"}))
        [] r.k = "utf8" ->
             \* mode switch: a pending incomplete sequence is discarded (or flushed: freedom point)
-            /\ rs' = [rs EXCEPT !.utf8 = r.ev.p[1] = 1, !.pend = <<>>,
-                                 !.flushAlt = (rs.pend # <<>>) \/ rs.flushAlt]
+            \* (selecting UTF-8 while already in UTF-8 mode changes nothing)
+            /\ rs' = IF r.ev.p[1] = 1 THEN [rs EXCEPT !.utf8 = TRUE]
+                     ELSE [rs EXCEPT !.utf8 = FALSE, !.pend = <<>>, !.flushAlt = (rs.pend # <<>>) \/ rs.flushAlt]
             /\ UNCHANGED <<st, need, grp>>
             /\ cnt' = Inc(cnt, {"lines"})
        [] OTHER -> /\ UNCHANGED <<st, need, rs, grp>>
